@@ -60,6 +60,7 @@ pub struct BindContext<'a> {
     funcs: HashMap<String, &'a RsCelFunction>,
     macros: HashMap<String, &'a RsCelMacro>,
     types: HashMap<String, CelValue>,
+    compile_time: bool,
 }
 
 impl<'a> BindContext<'a> {
@@ -70,6 +71,7 @@ impl<'a> BindContext<'a> {
             funcs: HashMap::new(),
             macros: HashMap::new(),
             types: HashMap::new(),
+            compile_time: false,
         };
 
         load_default_macros(&mut ctx);
@@ -84,6 +86,7 @@ impl<'a> BindContext<'a> {
             funcs: HashMap::new(),
             macros: HashMap::new(),
             types: HashMap::new(),
+            compile_time: true,
         };
 
         load_compile_macros(&mut ctx);
@@ -146,6 +149,12 @@ impl<'a> BindContext<'a> {
         self.params.contains_key(name)
             || self.funcs.contains_key(name)
             || self.macros.contains_key(name)
+    }
+
+    /// True when these bindings are used by the compiler for constant folding, where
+    /// names bound only at run time are not visible yet.
+    pub(crate) fn is_compile_time(&self) -> bool {
+        self.compile_time
     }
 
     pub(crate) fn add_type(&mut self, name: &str, r#type: CelValue) {
